@@ -49,6 +49,8 @@ def _prof(name: str) -> Prof:
                 'val': Prof(symbol=0, app=False),
                 'schem': Prof(symbol=0, app=False, metavars=2, subst=True, mv_cfgs=((0, 0, 0, 0), (1, 0, 0, 0), (0, 1, 0, 0))),
                 'schem_mixed': Prof(symbol=0, app=False, metavars=2, subst=True, mv_cfgs=((0, 0, 0, 0), (1, 0, 0, 0), (0, 1, 0, 0), (0, 0, 1, 0), (0, 0, 0, 1))),
+                'schem_subst': Prof(symbol=0, app=False, implies=False, exists=False, mu=False, metavars=2, subst=True),
+                'val_bind': Prof(symbol=0, app=False, metavars=0),
                 'val_schem': Prof(symbol=0, app=False, metavars=2, mv_cfgs=((0, 0, 0, 0), (1, 0, 0, 0), (0, 1, 0, 0))),
                 'schem_small': Prof(symbol=0, app=False, mu=False, metavars=2, subst=True, mv_cfgs=((0, 0, 0, 0), (1, 0, 0, 0)), mv_shared=True),
             }
@@ -379,7 +381,7 @@ PLUMBING = {
 RULES_AND_AXIOMS = ('Prop1', 'Prop2', 'Prop3', 'Quantifier', 'Existence', 'ModusPonens', 'Generalization', 'Substitution', 'Instantiate')
 
 
-def h_inst_adm(ctx: Any, n: int, m: int, twin: bool = False) -> None:
+def h_inst_adm(ctx: Any, n: int, m: int, prof: str = 'schem_mixed', val: str = 'val_schem', twin: bool = False) -> None:
     """L-inst: the instance relation the other lemmas quantify over.  On a Proved term whose metavariable occurrences
     carry arbitrary constraint annotations (different ones on different occurrences of one id: such terms are
     derivable, a plug may mention a metavariable with any annotation), an accepted Instantiate -- partial or total,
@@ -387,10 +389,10 @@ def h_inst_adm(ctx: Any, n: int, m: int, twin: bool = False) -> None:
     instantiated id (the document's judgements, decided on the plug) and yields the textbook instance."""
     from ..rsrt import Panic
 
-    tp = O.expand(gens.gen(ctx, n, _prof('schem_mixed')))
+    tp = O.expand(gens.gen(ctx, n, _prof(prof)))
     orders = [(0,), (1,), (0, 1), (1, 0)]
     ids = list(orders[ctx.choose(len(orders), 'ids')])
-    sig = {k: O.expand(gens.gen_upto(ctx, m, _prof('val_schem'))) for k in ids}
+    sig = {k: O.expand(gens.gen_upto(ctx, m, _prof(val))) for k in ids}
     ctx.count('reached')
     ctx.sample({'theorem': O.show(tp), 'sigma': {k: O.show(v) for k, v in sig.items()}})
     if twin:
@@ -417,6 +419,12 @@ def h_inst_adm(ctx: Any, n: int, m: int, twin: bool = False) -> None:
             ctx.check(O.doc_polarity(v, X, False), 'C01.inst.inadmissible-instance-accepted[negative]', what)
     from .c11 import _norm
 
+    # a capturing substitution is not the substitution of the logic: where the textbook instance needs a renaming,
+    # acceptance certifies something that is not an instance of the theorem
+    try:
+        O.inst(tp, sig, strict=True)
+    except O.Capture:
+        ctx.violation('C01.inst.capturing-instance-accepted', what())
     got = rsbridge.from_rs(stack[-1].f_0)
     want = O.inst(tp, sig)
     ctx.check(O.eq(_norm(got), _norm(want)), f'C01.inst.not-the-instance[{tp[0]}]', lambda: f'{O.show(tp)} . { {k: O.show(v) for k, v in sig.items()} } gives {O.show(got)}, the instance is {O.show(want)}')
@@ -495,6 +503,8 @@ def levels(tier: str) -> list[dict]:
             if rule == 'subst' and n > (4 if q else 5):
                 continue
             L.append(dict(label=f'L-schema/{rule}/premise={n},values<={1 if q else 2}', module=M, fn='h_schema', kwargs=dict(rule=rule, n=n, m=1 if q else 2), budget_s=bud, required=n <= 3, twin=(n == 3 and rule == 'gen')))
+    # pending substitutions resolved on plugs with binders (capture): theorem = phi_k[leaf/x] or phi_k[leaf/X]
+    L.append(dict(label=f'L-inst/pending-substitution,plugs-with-binders<={3 if q else 4}', module=M, fn='h_inst_adm', kwargs=dict(n=3, m=3 if q else 4, prof='schem_subst', val='val_bind'), budget_s=bud, required=True, twin=False))
     for n in ([2, 3, 4] if q else [2, 3, 4, 5]):
         L.append(dict(label=f'L-inst/theorem={n},plugs<={1 if q else 2}', module=M, fn='h_inst_adm', kwargs=dict(n=n, m=1 if q else 2), budget_s=bud, required=n <= 3, twin=(n == 3)))
     for ph in ('gamma', 'claim', 'proof'):
